@@ -146,7 +146,8 @@ def run_schedules(verdict, prop, beh, nreaders, nwriters, commits, reads, tag, r
                     while start > 1 and '"ev":"reset"' not in tl[start - 1]:
                         start -= 1
                     owner = "C04" if r["rule"] in ("release-bound", "reader-page-released", "reader-snapshot-older-than-a-completed-commit",
-                                                   "deregistered-unknown-reader", "deregistered-by-a-thread-without-registration") else "C09"
+                                                   "deregistered-unknown-reader", "deregistered-by-a-thread-without-registration") \
+                        else "C10" if r["rule"] in ("must-release", "reader-gone-but-still-registered") else "C09"
                     verdict.report({"kind": "threads", "class": "trace:" + r["rule"], "owner": owner,
                                     "readers": nreaders, "writers": nwriters},
                                    {"rule": r["rule"], "detail": r["detail"],
